@@ -43,6 +43,26 @@ CHECKS = {
         text="CssColor.tla/CssNamed.tla define hex, keywords, rgb ints/percentages, hsl (hue wrap, sectors, rounding as admissible sets), source-over compositing; MC_CssColor checks the definition's sanity. The harness renders abstract values into equivalent spellings; every observed parse is judged by TLC. Thorough: all integer hsl planes for hues -360..719 and all 2^24 six-digit hex strings.",
         note="Trusted: tinycss2.color3 keyword table as source of CssNamed.tla; the harness' rendering of abstract values into text.",
         ref="5 C07"),
+    "C08": dict(
+        technique="TLA+ trace validation of CLI runs (TrCli.tla over Wcag.tla; known-finding classes as input predicates) + TLC model checking of the as-is rewrite algorithm (Cli.tla)",
+        text="Design level: Cli.tla (as-is algorithm: in-place custom-property table, fallback form counted but not written, :root/html post-pass) over all abstract stylesheets of <=2 (thorough 3) rules: Partition, CardMeetsTarget, FailedUnchanged, ReportedIsWritten modulo the input classes F4/F5/F6. Code level: generated stylesheets (known abstract tree) run through the real command; stdout summary, report cards and the re-parsed *_cm.css are judged per rule by TLC: every rule in exactly one category, card colour = API result = written colour and meets the target, rules counted readable meet it in the written file, attention rules unchanged.",
+        note="Trusted: tinycss2 as CSS tokenizer, html.parser for cards, the Python API of the same tree as reference (as the property states). Known findings F4, F5, F6 (known_findings.json) are suppressed only for inputs in their class and only the listed clauses.",
+        ref="5 C08"),
+    "C09": dict(
+        technique="TLA+ trace validation of CLI runs (TrCli.tla: SameExceptAdjusted over token-value structure, file-system clauses; TrBatch.tla for directory runs)",
+        text="Input and output stylesheets are abstracted (tinycss2 token values, whitespace-insensitive, hash-consed) into flat item sequences with open/close markers; TLC checks equal structure except the value of the last color declaration of adjusted rules and of the custom properties they reference; plus inputs byte-identical (SHA-256), only <name>_cm.css and the report created, output parses. Inputs include *_cm.css-named files, carry-through constructs (@import/@charset/@font-face/@keyframes/@page/unknown at-rules, strings/urls with braces, escapes, !important, vendor hacks, empty rules, non-ASCII).",
+        note="Trusted: tinycss2 tokenizer on both sides; escapes compare by decoded value.",
+        ref="5 C09"),
+    "C18": dict(
+        technique="TLC model checking of CliBatch.tla (all trees x orders x two runs) + TLC-generated directory trees replayed into the real command + trace validation (TrBatch.tla)",
+        text="Design level: every tree of <=3 files over 10 kinds (incl. 4 fault kinds and *_cm.css), every traversal order, two runs: Isolation, SkipBad, NoCmInput, RerunStable; configurations with a shared custom-property table or kept *_cm.css inputs are rejected. Code level: TLC-enumerated trees are materialised (names/sub-directories permuted), the command is run twice on the directory and once per valid file alone; TLC judges byte-equality ids, reporting of bad files, absence of *_cm_cm.css, rerun stability.",
+        note="Traversal order cannot be forced, only varied. Unreadable-by-permission files are not exercised (the sandbox runs as root).",
+        ref="5 C18"),
+    "C19": dict(
+        technique="TLC model checking of the escaping discipline against an abstract HTML tokenizer (Report.tla) + TLC-generated strings replayed into both report generators + trace validation (TrReport.tla)",
+        text="Design level: SafeP for every string of <=3 symbols over a 20-symbol markup alphabet in element-content and attribute-value context; escaping modes noquote/none/skipIfRef are rejected. Code level: each TLC string is placed in each of 5 user-controlled slots of generate_report and to_html_bulk; end-to-end routes (CLI selectors, file names, lenient colour strings via save_report); the written report is tokenised with html.parser and TLC judges structure = benign structure and slot text verbatim.",
+        note="Trusted: html.parser as tokenizer. Level fields are library-computed, not user text.",
+        ref="5 C19"),
     "C12": dict(
         technique="TLA+ API state machine (Api.tla: BulkLength/BulkIsMap/BulkInvalid) + TLC-generated inputs (BulkLists.tla) replayed into the code + trace validation (TrApi.tla)",
         text="TLC enumerates every list of <=3 entries over 8 entry kinds x 3 arities; each is bound to concrete colours; the recorded behaviour (single-pair calls on fresh objects, bulk, bulk with the other setting, reversed bulk, singles again) is validated against Api.tla; status = label of the returned colour by Wcag.tla.",
@@ -80,7 +100,7 @@ NOT_APPLICABLE = [
     {"property_id": "C11", "reason": "pure transcendental float accuracy (CIE Lab, CIEDE2000: sqrt, sin, cos, exp, atan2, 7th powers); not expressible in a TLA+ specification - DESIGN.md section 6"},
 ]
 
-PENDING = {k: 'check under construction in this round (specification and harness not finished); will be claimed once built' for k in ('C08','C09','C18','C19')}  # id -> reason, for properties whose check is not built yet
+PENDING = {}  # id -> reason, for properties whose check is not built yet
 
 
 def main():
